@@ -55,7 +55,8 @@ pub fn run(args: &Args, rep: &mut Report) {
     for _ in 0..budget.max(1) {
         let sk = gen_sk(&mut r);
         // mostly a handful of predicates; now and then as many as a contract may hold
-        let np = if r.chance(0.006) { *r.pick(&[16usize, 17, 33, 64, 65, 99, 100]) } else { r.below(5) };
+        // (signing is defined for any number of predicates; 100 is what the validator accepts)
+        let np = if r.chance(0.006) { *r.pick(&[16usize, 17, 33, 64, 65, 99, 100, 101, 130]) } else { r.below(5) };
         let mut contract = Contract { predicates: (0..np).map(|_| crate::formats::gen_predicate(&mut r, false)).collect(), salt: if r.chance(0.2) { [0; 32] } else { r.bytes32() } };
         if np >= 1 && r.chance(0.25) {
             // a contract is a multiset of predicates: repeat one
